@@ -320,7 +320,7 @@ func biasedAst(rng *rand.Rand, cfg gen.Config) *gen.Node {
 	cfg.MaxDepth = 1 + rng.Intn(2)
 	tail := gen.Random(rng, cfg)
 	var head *gen.Node
-	switch rng.Intn(17) {
+	switch rng.Intn(18) {
 	case 0: // leading string
 		head = lit(w())
 	case 1: // leading strings
@@ -338,9 +338,29 @@ func biasedAst(rng *rand.Rand, cfg gen.Config) *gen.Node {
 	case 2: // set then literal at fixed distance
 		head = &gen.Node{Kind: gen.KSeq, Subs: []*gen.Node{{Kind: gen.KClass, Class: &gen.Class{Items: []gen.ClassItem{{Lo: 'a', Hi: 'c'}}}}, {Kind: gen.KDot}, lit(w())}}
 	case 3: // literal after a leading loop
-		head = &gen.Node{Kind: gen.KSeq, Subs: []*gen.Node{{Kind: gen.KQuant, Lo: rng.Intn(2), Hi: -1, Subs: []*gen.Node{{Kind: gen.KClass, Class: &gen.Class{Items: []gen.ClassItem{{Lo: 'a', Hi: 'b'}, {Short: 's'}}}}}}, lit(w())}}
+		loopSet := [][]gen.ClassItem{{{Lo: 'a', Hi: 'b'}, {Short: 's'}}, {{Short: 'd'}}, {{Lo: 'x', Hi: 'y'}}, {{Short: 'd'}, {Lo: '-', Hi: '-'}}}[rng.Intn(4)]
+		after := lit(w())
+		if rng.Intn(2) == 0 {
+			// the literal as the body of a loop that has to run at least once
+			after = &gen.Node{Kind: gen.KQuant, Lo: 1, Hi: []int{-1, 2}[rng.Intn(2)], Subs: []*gen.Node{{Kind: gen.KGroup, Subs: []*gen.Node{after}}}}
+		}
+		head = &gen.Node{Kind: gen.KSeq, Subs: []*gen.Node{{Kind: gen.KQuant, Lo: rng.Intn(2), Hi: -1, Subs: []*gen.Node{{Kind: gen.KClass, Class: &gen.Class{Items: loopSet}}}}, after}}
 	case 4: // leading anchor
 		head = &gen.Node{Kind: gen.KSeq, Subs: []*gen.Node{{Kind: gen.KAnchor, Anchor: []string{"A", "G", "^", "z", "Z"}[rng.Intn(5)]}, lit(w())}}
+	case 16: // branches of one fixed length that end (or begin) in different anchors
+		anc := func() *gen.Node { return &gen.Node{Kind: gen.KAnchor, Anchor: []string{"z", "z", "Z", "$", "b", "B"}[rng.Intn(6)]} }
+		ws := []string{"ab", "cd", "xy", "ba", "a1", "bc"}
+		br := func() *gen.Node {
+			if rng.Intn(4) == 0 {
+				return &gen.Node{Kind: gen.KSeq, Subs: []*gen.Node{{Kind: gen.KAnchor, Anchor: []string{"A", "^", "b", "G"}[rng.Intn(4)]}, lit(ws[rng.Intn(len(ws))])}}
+			}
+			return &gen.Node{Kind: gen.KSeq, Subs: []*gen.Node{lit(ws[rng.Intn(len(ws))]), anc()}}
+		}
+		alts := []*gen.Node{br(), br()}
+		if rng.Intn(3) == 0 {
+			alts = append(alts, br())
+		}
+		return &gen.Node{Kind: gen.KAlt, Subs: alts}
 	case 5: // fixed length + trailing anchor
 		return &gen.Node{Kind: gen.KSeq, Subs: []*gen.Node{lit(w()), {Kind: gen.KDot}, {Kind: gen.KAnchor, Anchor: []string{"z", "Z", "$"}[rng.Intn(3)]}}}
 	case 6: // single char at fixed distance (U+FFFD: the rune every invalid byte of a string input decodes to)
